@@ -4,12 +4,16 @@ import "fmt"
 
 // family cascade (C16)
 func genCascade(r *rng, index int) *Spec {
-	sp := baseSpec(r, shapeOpt{minHA: 2, maxHA: 3})
+	kind := (index / 3) % 13
+	minHA := 2
+	if kind == 12 {
+		minHA = 3
+	}
+	sp := baseSpec(r, shapeOpt{minHA: minHA, maxHA: 3})
 	c := &sp.Cfg
 	ha := sp.haNames()
 	master := ha[0]
 	nC := 1 + index%3
-	kind := (index / 3) % 12
 	var cs []string
 	for i := 0; i < nC; i++ {
 		cs = append(cs, fmt.Sprintf("c%d", i+1))
@@ -86,6 +90,13 @@ func genCascade(r *rng, index int) *Spec {
 		for i := 1; i < nC; i++ {
 			sf[cs[i]] = []string{"c1", ha[1]}[r.intn(2)]
 		}
+	case 12:
+		// a member of the active list is re-registered as a cascade replica and, before the list
+		// could be recomputed, the master dies or a switchover is asked for
+		label = "active_member_becomes_cascade"
+		for _, x := range cs {
+			sf[x] = ha[1]
+		}
 	case 11:
 		// a cascade replica answers the manager with "too many connections" (or refuses its
 		// login) while the HA group changes its master: it has no say in that
@@ -158,6 +169,32 @@ func genCascade(r *rng, index int) *Spec {
 		}
 		sp.Variant = fmt.Sprintf("%s nC=%d", label, nC)
 		sp.DurationMs = at + 45000
+		sp.Primary = []string{"C16"}
+		return sp
+	}
+	if kind == 12 {
+		x := ha[len(ha)-1]
+		at := T + int64(r.intn(4000))
+		sp.Timeline = append(sp.Timeline, TLEvent{AtMs: at, Kind: "cli_host_add", Host: ha[1], Arg: x, Arg2: ha[1]})
+		gap := int64(r.pickInt(60, 200, 500, 900))
+		what := ""
+		c.WaitSlaveCount = 1
+		c.SemiSync = true
+		if r.chance(0.6) {
+			c.Failover = true
+			c.FailoverDelayMs = 0
+			c.FailoverCooldownMs = 0
+			sp.Hosts[0].StartDelayMs = 4000 // the manager is another host
+			sp.Timeline = append(sp.Timeline, TLEvent{AtMs: at + gap, Kind: r.pick("kill_mysql", "kill_host"), Host: master, Fault: true})
+			what = "master dies"
+		} else {
+			sp.Timeline = append(sp.Timeline, TLEvent{AtMs: at + gap, Kind: "cli_switch_from", Host: ha[1], Arg: master})
+			// ... and the other remaining member is not available
+			sp.Timeline = append(sp.Timeline, TLEvent{AtMs: at + gap - 30, Kind: "kill_mysql", Host: ha[1], Fault: true})
+			what = "switch_from " + master + " with " + ha[1] + " down"
+		}
+		sp.Variant = fmt.Sprintf("%s nC=%d member=%s gap=%d %s@%d", label, nC, x, gap, what, at/1000)
+		sp.DurationMs = at + 40000
 		sp.Primary = []string{"C16"}
 		return sp
 	}
